@@ -34,7 +34,10 @@ def h_history(ctx, ops, role, driver="full", light=False):
     clock = fresh_env(ctx)
     lite = driver == "lite"
     radio, nrf = new_lite(clock) if lite else new_rf24(clock)
-    mode = 1 if light else ctx.choice("dynamic", 3)  # 0 static, 1 dynamic, 2 static configuration followed by ack = True (dynamic again)
+    # 0 static, 1 dynamic, 2 static configuration followed by ack = True (dynamic again), 3 static configuration followed by
+    # set_dynamic_payloads(True, q) for ONE pipe q (full driver: the modes are per pipe)
+    mode = 1 if light else ctx.choice("dynamic", 3 if lite else 4)
+    dyn_pipe = None
     dynamic = mode != 0
     lens = STATIC_LENS if not lite else (7,) * 6  # the lite driver has one global static length
     if mode == 1:
@@ -44,6 +47,9 @@ def h_history(ctx, ops, role, driver="full", light=False):
         nrf.payload_length = list(STATIC_LENS) if not lite else 7
         if not lite:
             nrf.set_payload_length(ctx.int("oversized_width", 33, 300), 1)  # clamped to the 32 bytes pipe 1 already had
+        if mode == 3:
+            dyn_pipe = (2, 4, 5)[ctx.choice("dynamic_pipe", 3)]
+            nrf.set_dynamic_payloads(True, dyn_pipe)
         if mode == 2:
             nrf.ack = True  # enables dynamic payload lengths again (EN_DPL; pipe 0 - every pipe on the lite driver)
     for p in range(6):
@@ -51,7 +57,10 @@ def h_history(ctx, ops, role, driver="full", light=False):
     nrf.listen = (role == "rx")
     n_rx, n_tx = (ctx.choice("n_rx", 4), (0, 1, 3)[ctx.choice("n_tx", 3)]) if not light else (ctx.choice("n_rx", 2), ctx.choice("n_tx", 2))
     for i in range(n_rx):
-        if mode == 2 and not lite:
+        if mode == 3:
+            pipe = (dyn_pipe, 0, dyn_pipe)[i]
+            ln = (4, STATIC_LENS[0], 9)[i]  # lengths on the dynamic pipe differ from its (still configured) static width
+        elif mode == 2 and not lite:
             pipe = (0, 3, 5)[i]
             ln = 4 if pipe == 0 else STATIC_LENS[pipe]
         elif dynamic:
@@ -208,7 +217,7 @@ META = {
                 "specification)", "traffic-driven histories (covered through C01/C02 with the same radio model)",
                 "histories deeper than 3"],
     "assumptions": ["SimRadio FIFO / STATUS / FIFO_STATUS / OBSERVE_TX semantics (product specification 8.3, 9.1)",
-                    "static mode: queued payloads have the width configured for their pipe (the radio only accepts those)"],
+                    "static mode: queued payloads have the width configured for their pipe (the radio only accepts those); mixed mode (one pipe made dynamic with set_dynamic_payloads(True, q), q in {2,4,5}): payloads of 4 and 9 bytes on q, the static width elsewhere"],
 }
 
 if __name__ == "__main__":
